@@ -129,12 +129,20 @@ def drive(strategy, check, rec, seed, max_examples, shrink=True, max_failures=1,
     the shrunk case and message are appended to rec.failures.  Returns when done.
     """
     state = {"deadline": None}
+    journal = os.environ.get("VERIF_JOURNAL")
 
     @hypothesis.seed(seed)
     @hyp_settings(max_examples, shrink)
     @given(strategy)
     def test(case):
+        if journal:
+            # the driver's watchdog reads this when the worker stops answering (compiled code cannot be interrupted)
+            with open(journal, "w") as jf:
+                json.dump({"t": time.time(), "case": case}, jf)
         v = check(case)
+        if journal:
+            with open(journal, "w") as jf:
+                jf.write("{}")
         if not state.get("shrinking"):
             rec.record(case, v)
         if not v.ok:
